@@ -41,6 +41,8 @@ def tasks(tier, seed):
             add("group_hier", (d, 1, 1, part), f"group_hier[d={d},{part}]")
     if tier == "quick":
         add("group_hier", (2, 2, 1, [[0, 1]]), "group_hier[d=2,k=2,[[0,1]]]")
+    # B: the same contracts replayed on the real code at a ladder of larger shapes (stand-in for the missing induction over sizes)
+    t.append(("contracts.size_ladder", "task", ("prox", tier, seed), 1500, "size ladder: proximal operators"))
     return t
 
 
